@@ -44,7 +44,7 @@ func TextRewrites(r *Rendered) []Rewrite {
 	var out []Rewrite
 	for i, l := range r.Lines {
 		if l.Kind == LDirective || l.Kind == LParen {
-			for _, c := range []string{" # c", " # a # b # c", "#", " ## x", " ##", "##"} {
+			for _, c := range []string{" # c", " # a # b # c", "#", "# c", "### c ###", " ## x", " ##", "##", " \t# c", "\t # c"} {
 				if l.Kind == LDirective && r.Lines[i].Span.Node.Kw == "Description" {
 					continue // the rest of a Description line... keep clear of free text
 				}
